@@ -5,15 +5,18 @@
    (Kernel/Ops.v add_vertex / add_edge / add_face / add_cell, Mesh/TetModel.v, Mesh/HexModel.v guards).
 
    Conventions
-     * every loop of the C++ that is not bounded by a count has explicit fuel; fuel running out is the outcome [RSpin];
-       count loops are structural recursions on the count;
-     * every int-handle overflow and every use of an invalid handle is the outcome [RUB] (the uninitialised locals of
-       the original deserializers were repaired in /repo: fixes 02047e4, 1ccacde, 12ef533);
+     * every loop of the C++ that is not bounded by a count has explicit fuel; fuel running out is the outcome [RSpin]
+       (getCleanLine, the property loop, the `unsigned e < uint64 val` valence loop); count loops are structural
+       recursions on the count;
+     * an int-handle overflow (an unsigned value above INT_MAX turned into a handle) is the outcome [RUB];
      * allocation: reserve / resize / vector(n) of n elements of [esz] bytes throws length_error when n exceeds the
        container's max_size and bad_alloc when n*esz exceeds [o_alloc] bytes (the only modelled memory limit);
      * floating-point conversion is the Section variables [conv_d] / [conv_f] (see AsciiStream.v); nothing is assumed;
      * the position property "ovm:position" is an ordinary shared vertex property of the mesh (GeometryKernel.hh:211-220),
        so a file can address it.
+   The model follows /repo AFTER the repairs found with this machinery: 262e1ec (stop on a failed stream), b628a9e (a
+   rejected face / cell fails the read), fa05513 (property without a name), 02047e4 + 1ccacde + 12ef533 (no uninitialised
+   locals / defaults), de64241 (a face without halfedges is refused), 55fc9de (map deserializer stops on a failed stream).
    No proofs in this file. *)
 From Coq Require Import ZArith Lia List Bool String Ascii.
 From OVM Require Import IO.AsciiStream.
